@@ -717,7 +717,67 @@ agraph ({", ".join(ins)}) => ({", ".join(outs)})
 }}"""
 
 
+def fam_local_functions(rng: Rng) -> str:
+    """Models with 2-4 model-local functions called from the main graph (for the inliner, function removal and the opset-import
+    merging they do): functions whose bodies use operators of custom domains that the model itself does not import, nested
+    calls (a function calling another), the same function called twice, overloads, functions in two domains, an unused one."""
+    v = _variant(rng, [("two_domains_new", 3), ("three_domains_new", 2), ("nested", 2), ("called_twice", 1), ("unused_fn", 1),
+                      ("model_imports_all", 1), ("two_function_domains", 2), ("std_only", 1)])
+    n = 4
+    doms = ["custom.alpha", "custom.beta", "custom.gamma", "custom.delta", "zeta.ops", "a.b"]
+    rng.shuffle(doms)
+    k = {"two_domains_new": 2, "three_domains_new": 3, "nested": 3, "called_twice": 2, "unused_fn": 3, "model_imports_all": 2,
+         "two_function_domains": 3, "std_only": 2}[v]
+    fdom = ["local"] * k
+    if v == "two_function_domains":
+        fdom = ["local", "other.local", "local"]
+    model_imports = ['"" : 18'] + [f'"{d}" : 1' for d in sorted(set(fdom))]
+    if v == "model_imports_all":
+        model_imports += [f'"{d}" : 1' for d in doms[:k]]
+    fns, calls = [], []
+    prev = "x"
+    for i in range(k):
+        dom = doms[i]
+        if v == "std_only":
+            body = f"q = {rng.choice(['Neg', 'Abs', 'Relu'])}(t)"
+            imp = '"" : 18'
+        else:
+            body = f"q = {dom}.Custom{i}(t)"
+            imp = f'"" : 18, "{dom}" : 1'
+        extra = ""
+        if v == "nested" and i >= 1:
+            # F_i calls F_{i-1}
+            body = f"u = {fdom[i - 1]}.F{i - 1}(t)\n   q = {dom}.Custom{i}(u)"
+            imp += f', "{fdom[i - 1]}" : 1'
+        fns.append(f"""<opset_import: [{imp}], domain: "{fdom[i]}">
+F{i} (p) => (q)
+{{
+   t = {rng.choice(['Relu', 'Identity', 'Abs'])}(p)
+   {body}
+}}""")
+    order = list(range(k))
+    if v == "unused_fn":
+        order = order[:-1]
+    if v == "nested":
+        order = [k - 1]
+    if v == "called_twice":
+        order = order + [order[0]]
+    rng.shuffle(order) if v not in ("nested",) else None
+    lines = []
+    for j, i in enumerate(order):
+        out = f"v{j}" if j < len(order) - 1 else "y"
+        lines.append(f"{out} = {fdom[i]}.F{i}({prev})")
+        prev = out
+    return f"""<ir_version: 9, opset_import: [{", ".join(model_imports)}]>
+agraph (float[{n}] x) => (float[{n}] y)
+{{
+   {chr(10).join('   ' + ln for ln in lines).strip()}
+}}
+{chr(10).join(fns)}"""
+
+
 FAMILIES = {
+    "local_functions": fam_local_functions,
     "user_rules": fam_user_rules,
     "pad_conv": fam_pad_conv, "pad_conv_tail": fam_pad_conv_fail_tail, "reshape_reshape": fam_reshape_reshape,
     "flatten": fam_flatten, "cast_cast": fam_cast_cast, "transpose": fam_transpose, "minmax": fam_minmax,
@@ -756,7 +816,7 @@ agraph ({xdecl}, float[{a * b}] z) => (float[?,?] out)
 
 # families whose members walk through declared variants: a batch takes one member per variant (capped), so that every
 # special path of the rule's check() is in every batch; other families vary only in parameters and get 3 members
-N_VARIANTS = {"user_rules": 12, "hardswish": 7, "conv_affine": 5, "expand_binary": 5, "reshape_matmul": 7, "scatter_nd": 4, "rms_norm": 4, "pad_conv": 12, "reshape_reshape": 8, "fold_chain": 10, "slice_split": 7, "const_if": 7}
+N_VARIANTS = {"local_functions": 8, "user_rules": 12, "hardswish": 7, "conv_affine": 5, "expand_binary": 5, "reshape_matmul": 7, "scatter_nd": 4, "rms_norm": 4, "pad_conv": 12, "reshape_reshape": 8, "fold_chain": 10, "slice_split": 7, "const_if": 7}
 
 
 def members_per_batch(family: str, default: int, cap: int = 10) -> int:
